@@ -7,7 +7,7 @@ open IncrVerif.Engine IncrVerif.Driver IncrVerif.Proofs IncrVerif.Proofs.Step In
 open IncrVerif.Proofs.ExpertH IncrVerif.Proofs.EffH IncrVerif.Proofs.DriverH
 
 section
-variable {env : Env} {s : State} (fam a0 : Nat)
+variable {env : Env} {s : State} (fam : FamCut) (a0 : Nat)
 
 /-! ## the fragment -/
 
@@ -88,7 +88,10 @@ theorem kidsX_pkc_old (F : PFrag env s) {m : Nat} (hm : m < s.nodes.size) :
 theorem kf_pkc (F : PFrag env s) : KF s (pkCreated fam a0 s) :=
   ⟨by rw [pkc_size]; omega, fun m hm => by rw [pkc_nodeD_lt fam a0 s hm],
     fun e er he => ⟨er, pkc_expert_old fam a0 s he, rfl⟩, fun j n h => pkc_top_old fam a0 s h,
-    fun m hm => kidsX_pkc_old fam a0 F hm⟩
+    fun m hm => kidsX_pkc_old fam a0 F hm,
+    fun m e hm hk hs => V_stamp_keep hk (by rw [pkc_nodeD_lt fam a0 s hm]) (by rw [pkc_nodeD_lt fam a0 s hm]) (by
+      obtain ⟨er, he, -⟩ := F.xrec m e hm hk
+      rw [xRec_pkc_lt fam a0 s (Array.getElem?_eq_some_iff.1 he).1]; exact id) hs⟩
 
 /-- the children of the new nodes -/
 theorem kidsX_pkc_new {c x : Nat} (hc : s.nodes.size ≤ c)
